@@ -40,6 +40,7 @@ func c02Menu(thorough bool) []enga.ABlock {
 		{},
 		{Dt: 7}, // election (period 6 s)
 		ev(enga.Event{Kind: "tx:hashes", N: 1}),
+		ev(enga.Event{Kind: "tx:hashes", N: 0, Var: "empty-list"}), // a voted proposal that records nothing must still consume its sequence
 		ev(enga.Event{Kind: "tx:newpubkey"}),
 		ev(enga.Event{Kind: "tx:newpubkey", Var: "existing"}), // valid vote, handler fails afterwards
 		ev(enga.Event{Kind: "tx:deposits", N: 1}),
